@@ -11,18 +11,18 @@ LEVEL = {
  "C03": ("E2 explicit-state exploration of the reference model (all operation-level interleavings) + E1: the outcome vector of every explored implementation execution must be in the model's outcome set", "6.3"),
  "C04": ("E1 with payload byte patterns over all size/alignment classes and happens-before tracking of the slot; transfer path decided by the schedule", "6.4"),
  "C05": ("E1; oracle: drop ledger = exactly one destructor run per value at the end of every execution; Option argument Some <=> failure", "6.5"),
- "C06": ("E1; oracle: every explored execution terminates (loom deadlock detection + step budget), incl. spurious parks, parallelism 1 and 2, wakers replaced between polls", "6.6"),
+ "C06": ("E1; oracle: every explored execution terminates (loom deadlock detection + step budget), incl. spurious parks, parallelism 1 and 2, wakers replaced between polls, non-initial channel states; a timed operation with a far deadline is released by close/disconnect before that deadline (virtual clock)", "6.6"),
  "C07": ("E1 with the tracker: loom's vector clocks on every raw-pointer-reached location of a waiter (payload cell, pointee slot, thread handle, waker) and no access to a retired waiter", "6.7"),
  "C08": ("E1 + E2; oracle: history invariant S(t)-R(t)<=n, len<=capacity, refusal exactly when the model says full and nobody waits", "6.8"),
  "C09": ("E1 + E2 over every sync/async assignment of the endpoints and every conversion route; all delivery/order/ownership/progress oracles", "6.9"),
  "C10": ("E1 + E2; oracle: one close succeeds, everything begun after its return fails Closed, buffered values destroyed by its return, waiters released", "6.10"),
  "C11": ("E1 + E2; oracle: disconnect never observed while a handle of that side is surely alive; buffered values first, in order; waiters released", "6.11"),
  "C12": ("E2 sequential conformance (every clone/convert/drop/close sequence up to a depth, replayed on the real code) + E1 concurrent clone/drop with counts in the model's outcome set", "6.12"),
- "C13": ("E1 with a virtual clock: deadline at every position relative to the peer; oracle: exactly one of ok/timeout/closed, never before the deadline, value moved once or not at all, nothing left behind (tracker)", "6.13"),
+ "C13": ("E1 with a virtual clock: deadline at every position relative to the peer; oracle: exactly one of ok/timeout/closed, never before the deadline, value moved once or not at all, nothing left behind (tracker); a closed/disconnected error before a far deadline; an observer holding the lock while the deadline passes", "6.13"),
  "C14": ("E1 + E2: results in the model's outcome set; monitors: no park / signal wait inside try_* and drain_into, additionally no yield and a step bound inside *_realtime, with the peer preempted at every point", "6.14"),
  "C15": ("E1 + E2 + tracker: future dropped at every point of its life x all schedules; delivered once xor dropped once, no access to the future afterwards, later operations per the model", "6.15"),
  "C16": ("E2 sequential conformance over all legal poll scripts (spurious polls, waker switches, polls after completion, repeated stream waits) + E1 of the same scripts racing with a peer", "6.16"),
- "C17": ("E1 on the real spin lock driven directly: overlap monitor + loom causality on the protected cell + try_lock step bound + termination, parallelism 1 and 2", "6.17"),
+ "C17": ("E1 on the real spin lock driven directly: overlap monitor + loom causality on the protected cell + try_lock step bound + termination, parallelism 1 and 2; the lock's own retry loop executed through all its phases (lock_spin knob)", "6.17"),
  "C18": ("E2: every call sequence of the full single-thread API alphabet up to a depth (no deduplication) executed on the real code and compared with the reference model step by step; deeper on the deduplicated model state graph", "6.18"),
  "C19": ("E1 + E2: channel state x vector state x schedules; count = appended, prefix untouched, order, drained senders succeed, never waits", "6.19"),
 }
@@ -49,7 +49,7 @@ for i in range(1, 21):
             "replay_cmd_template": "./check replay {path}",
             "engine": "kmc",
             "level_claimed": {"category": "model_checking", "text": text, "design_ref": f"DESIGN.md {ref}"},
-            "level_note": "trusted base: loom 0.7.2 (C11 model, DPOR; bounded DPOR where a preemption bound is listed in the evidence), rustc, the shim /verif/rt, the reference model /verif/mc/src/model.rs, the spin-cut stutter-equivalence and lock-seam arguments of DESIGN 2.1; bounds: <=4 threads, <=3 ops per thread, capacities {0,1,2,unbounded}, representative payload values",
+            "level_note": "trusted base: loom 0.7.2 (C11 model, DPOR; bounded DPOR where a preemption bound is listed in the evidence), rustc, the shim /verif/rt, the reference model /verif/mc/src/model.rs, the stutter-equivalence arguments for the spin cut and for modelling a failed lock acquisition as blocking (DESIGN 2.1); bounds: <=4 threads, <=3 ops per thread, capacities {0,1,2,unbounded}, representative payload values",
             "technique": TECH.get(pid, DEFAULT_TECH),
         })
     elif pid == "C20":
@@ -61,7 +61,7 @@ m = {
  "setup_cmd": "./setup.sh",
  "hooks": {
   "guard": "cfg(kanal_verif)",
-  "enable": "the out-of-tree package /verif/hooked (name kanal, [lib] path=/repo/src/lib.rs) whose build.rs emits cargo::rustc-cfg=kanal_verif and which links the shim /verif/rt; built by ./check and ./setup.sh into /verif/target/{default,seam}",
+  "enable": "the out-of-tree package /verif/hooked (name kanal, [lib] path=/repo/src/lib.rs) whose build.rs emits cargo::rustc-cfg=kanal_verif and which links the shim /verif/rt; built by ./check and ./setup.sh into /verif/target/default",
   "baseline_off_cmd": "cd /repo && cargo test --workspace --no-fail-fast --offline",
   "source_commits": hook_ids,
   "add_only": True,
